@@ -45,3 +45,37 @@ Theorem C02_text_around_is_unaffected cx f en s ss out r str :
   eval_program cx (S f) en (s :: ss) out = eval_program cx f (snd r) ss (out ++ str).
 Proof. exact (program_concatenates cx f en s ss out r str). Qed.
 Print Assumptions C02_text_around_is_unaffected.
+
+(* ---- the full statement: the model's statement evaluator REFINES the clean big-step semantics
+   of Spec/Template.v on the AST of every specification template (induction on the specification's
+   fuel over nodes, blocks, @each passes and @for passes together).  For @if this says: exactly the
+   branch the specification picks - the first one whose condition is truthy, conditions evaluated
+   left to right in the enclosing scope and none after the chosen one - is what the model renders,
+   with the same output, signal and scope chain; an error where the specification says error. *)
+From TW Require Import ExprSem CleanValues TemplateRefine.
+
+Theorem C02_statements_refine_the_specification fs sc n :
+  env_clean sc = true -> node_ok n ->
+  exists K, forall fm, (K <= fm)%nat ->
+    Rs (eval_stmt cx0 fm sc (cnode n)) (run_node model_call_spec fs sc n).
+Proof. exact (statement_refines_specification fs sc n). Qed.
+Print Assumptions C02_statements_refine_the_specification.
+
+(* what the specification says about @if, spelled out: the chosen branch, later conditions absent *)
+Theorem C02_specification_of_if f sc c thn elifs els v :
+  ev model_call_spec sc c = SVal v -> truthy_spec v = true ->
+  run_node model_call_spec (S f) sc (NIf c thn elifs els) = run_block model_call_spec f sc thn.
+Proof. intros Hc Ht. rewrite rn_if, Hc, Ht. reflexivity. Qed.
+Print Assumptions C02_specification_of_if.
+
+Theorem C02_whole_template_renders_like_the_specification fs (data : list (bytes * value)) ns :
+  forallb (fun kv : bytes * value => clean (snd kv)) data = true -> nodes_ok ns ->
+  exists K, forall fm, (K <= fm)%nat ->
+    match run_nodes model_call_spec fs [data] ns with
+    | TOk out SigNormal _ => exists en', eval_program cx0 fm [data] (map cnode ns) [] = Ok (out, en')
+    | TOk _ _ _ => True
+    | TFail => exists ln msg, eval_program cx0 fm [data] (map cnode ns) [] = Fail ln msg
+    | TNoFuel | TUnprintable => True
+    end.
+Proof. exact (template_refines_specification fs data ns). Qed.
+Print Assumptions C02_whole_template_renders_like_the_specification.
